@@ -64,6 +64,22 @@ def offloadedCertificate : List HeaderVal → Option String
   | [.cert owner] => some owner
   | _ => none
 
+/-- `tlsOffloadingAuthenticator.intercept` on one stream. grpc-go keeps ONE `*peer.Peer` per HTTP/2 connection, shared by all
+    streams a multiplexing proxy sends over it: `shared` is the certificate owner held in its `AuthInfo` (none = no TLS info)
+    when the stream arrives. The interceptor OVERWRITES `AuthInfo` with the certificate of THIS stream's header; a refused
+    stream leaves the shared peer alone. Result: the shared peer afterwards and what this stream's handler sees. -/
+def interceptStream (shared : Option String) (vals : List HeaderVal) : Option String × Option String :=
+  match offloadedCertificate vals with
+  | none => (shared, none)
+  | some owner => (some owner, some owner)
+
+/-- the streams of one connection in arrival order: what each handler sees (none = refused) -/
+def interceptStreams : Option String → List (List HeaderVal) → List (Option String)
+  | _, [] => []
+  | shared, vals :: rest =>
+    let (shared', seen) := interceptStream shared vals
+    seen :: interceptStreams shared' rest
+
 /-- which `grpc.Authenticator` the connection manager is given -/
 inductive AuthKind where
   | tls | dummy
